@@ -148,7 +148,7 @@ PROPS["C05"] = [
     for k in ("null", "false", "int", "str", "empty_arr", "arr", "empty_obj", "missing")
 ] + [
     H("filter", "c05_select_arr_" + k, funcs=_C05F, symbolic="3 elements (any i64), constant c in I-JSON", shape="array of 3, predicate @ %s c" % k, est=200, timeout=900)
-    for k in ("gt", "eq", "lte", "ne")
+    for k in ("gt", "eq", "lt", "ne")
 ] + [
     H("filter", "c05_select_obj_lt", funcs=_C05F, symbolic="2 member values, constant", shape="object of 2, predicate @ < c", est=200, timeout=900),
     H("filter", "c05_select_scalar", funcs=_C05F, symbolic="scalar value", shape="filter on a scalar", est=20),
@@ -181,12 +181,6 @@ _C02 = [
     H("segment", "c02_selectors_idx_idx", funcs=["query::segment::process_selectors", "query::state::Data::reduce"], symbolic="i, j in -4..4", shape="[i, j] on one array of 3", est=40),
     H("segment", "c02_selectors_slice_idx", funcs=["query::segment::process_selectors"], symbolic="slice bounds 0..3, j in -4..4", shape="[s:e, j] on one array of 3", est=120),
     H("segment", "c02_selectors_idx_slice", funcs=["query::segment::process_selectors"], symbolic="slice bounds 0..3, j in -4..4", shape="[j, s:e] on one array of 3", est=120),
-    H("segment", "c02_roleb_selectors_two_inputs", tiers="t", funcs=["query::segment::process_selectors"], role="B", symbolic="-", shape="[0,1] on two arrays of 2", est=2000, timeout=3000),
-    H("state", "c02_flat_map_refs", tiers="t", funcs=["query::state::Data::flat_map"], symbolic="node payloads", shape="flat_map over three nodes -> 2, 0, 1 nodes", est=2000, timeout=3000),
-    H("segment", "c02_descendant_tree_a", tiers="t", funcs=["query::segment::process_descendant"], symbolic="leaf payloads", shape="[[x,y],z]", est=2000, timeout=3000),
-    H("segment", "c02_descendant_wildcard_tree_a", tiers="t", funcs=["query::segment::process_descendant", "Segment::process"], symbolic="leaf payloads", shape="$..[*] on [[x,y],z]", est=2000, timeout=3000),
-    H("segment", "c02_descendant_index_tree_c", tiers="t", funcs=["query::segment::process_descendant", "Segment::process"], symbolic="leaf payloads, i in -3..2", shape="$..[i] on [[a,b],[c]]", est=2000, timeout=3000),
-    H("segment", "c02_descendant_tree_b", tiers="t", funcs=["query::segment::process_descendant", "Segment::process"], symbolic="leaf payloads", shape="$..* on {a:[x], b:{c:y}}", est=2000, timeout=3000),
 ]
 _SLICES = [h for h in PROPS["C11"] if "slice" in h["name"]]
 PROPS["C01"] = _C01 + [h for h in _C02 if "roleb" not in h["name"]] + [h for h in PROPS["C11"] if h["name"].endswith(("index_len3", "slice_len2"))]
@@ -256,3 +250,26 @@ PROP_INFO["C06"] = {
 }
 PROP_INFO["C07"] = dict(PROP_INFO["C06"])
 PROP_INFO["C07"]["bounds"] = PROP_INFO["C06"]["bounds"].replace("listed well-formed calls", "listed mis-aritied / ill-typed calls") 
+
+# ----------------------------------------------------------------------------- C08 / C12
+_PROC = ["query::js_path_process", "query::jp_query::<Vec<Segment> as Query>::process", "Segment::process", "Selector::process", "State::root"]
+_C08P = [
+    H("query", "c08_process_" + k, funcs=_PROC, symbolic=sym, shape=shape, est=20)
+    for k, sym, shape in (("index_arr", "i in I-JSON, element payloads", "$[i] on an array of 3"), ("index_scalar", "i, scalar", "$[i] on an int"),
+                          ("wild_arr", "element payloads", "$[*] on an array of 3"), ("wild_empty", "-", "$[*] on []"),
+                          ("name_obj", "member values", "$.a on {b,a}"), ("name_arr", "payloads", "$.a on an array"), ("root", "scalar", "$ on an int"))
+]
+PROPS["C08"] = _C08P + PROPS["C11"] + [h for h in PROPS["C01"] if "wrong_container" in h["name"] or "selectors_on" in h["name"]] + [PROPS["C06"][0]]
+PROP_INFO["C08"] = {
+    "bounds": "no-panic (Kani's overflow / bounds / unwrap / cast checks, all on) and always-Ok for: one-segment queries of each selector kind through js_path_process on arrays of 3, objects of 2, scalars, empty containers; index and slice arithmetic for every I-JSON integer (C11 harnesses); the parser's integer range check",
+    "outside": ["the parser (pest) - panics in parse-tree handling are not covered", "stack exhaustion on deep documents / queries and wall-clock bounds (not expressible in CBMC)", "multi-segment pipelines, descendant recursion and filters after multi-node segments (measured out of reach)", "regex compilation"],
+}
+PROPS["C12"] = [
+    H("query", "c12_history", funcs=_PROC, symbolic="two documents' payloads, two indices (I-JSON)", shape="q1 on d1, q2 on d2, q1 on d1 again", est=40),
+    H("query", "c12_projections", funcs=_PROC + ["QueryRef::val", "QueryRef::path"], symbolic="payloads, index", shape="val() / path() of the evaluation result", est=60),
+]
+PROP_INFO["C12"] = {
+    "bounds": "PARTIAL: sequential history independence and document immutability for one-segment index queries on arrays of 3; val()/path() projections of QueryRef",
+    "outside": ["query / query_only_path / query_with_path and parse-once-vs-parse-each-time: all go through the pest parser (out of reach)", "concurrent use from several threads: Kani models sequential code only", "Send + Sync (a type-system fact, not a solver question)"],
+    "level_text": "PARTIAL claim: bounded model checking of repeated evaluation of programmatically built one-segment queries; the string entry points (parser) and the schedule quantifier are outside the technique.",
+}
